@@ -821,3 +821,90 @@ def iter_all(ctx):
 @contract(r' as Iterator>::any::<.*>$')
 def iter_any(ctx):
     return _iter_all_any(ctx, False)
+
+
+# --------------------------------------------------------------------------- iter_mut / try_for_each / find over explicit lists
+
+@contract(r'^core::slice::<impl \[.*\]>::iter_mut$|^<&mut Vec<.*> as IntoIterator>::into_iter$|^<&mut \[.*\] as IntoIterator>::into_iter$')
+def slice_iter_mut(ctx):
+    return Agg('slice::Iter', {0: ctx.args[0], 1: Int(BV(0, 64), 64, False)})
+
+
+@contract(r'^<std::slice::IterMut<.*> as Iterator>::next$')
+def slice_iter_mut_next(ctx):
+    from contracts import slice_iter_next
+    return slice_iter_next(ctx)
+
+
+def _explicit_elems(ctx, itv):
+    """element references of an iterator over an explicit list: [(Ref)]"""
+    ex, st = ctx.ex, ctx.st
+    it = ex.deref1(st, itv) if isinstance(itv, Ref) else itv
+    if not (isinstance(it, Agg) and it.name == 'slice::Iter'):
+        return None
+    src, loc = seq_loc(ex, st, it.fields[0])
+    if not (isinstance(src, SeqV) and src.items is not None) or loc is None:
+        return None
+    start = concrete(it.fields[1].t)
+    if start is None:
+        return None
+    return [Ref(loc[0], loc[1] + (('i', BV(i, 64)),)) for i in range(start, len(src.items))]
+
+
+@contract(r' as Iterator>::try_for_each::<.*>$')
+def iter_try_for_each(ctx):
+    """apply the closure to each element in order; stop at the first Err (std semantics), all effects kept"""
+    ex, st = ctx.ex, ctx.st
+    elems = _explicit_elems(ctx, ctx.args[0])
+    clo = ctx.args[1]
+    body = ex.db.closure_fn(clo.name) if isinstance(clo, Agg) else None
+    if elems is None or body is None:
+        return NotImplemented
+    ccell = st.alloc(clo)
+    frontier = [st]
+    done = []
+    for e in elems:
+        nxt = []
+        for s in frontier:
+            for s2, r in ex.call_sub_states(s, body, [Ref(ccell, ()), e]):
+                if not isinstance(r, Agg) or r.discr is None:
+                    return NotImplemented
+                d = r.discr if isinstance(r.discr, int) else concrete(r.discr)
+                if d is None:
+                    return NotImplemented
+                if d == 0:
+                    nxt.append(s2)
+                else:
+                    done.append((s2, r))
+        frontier = nxt
+    for s in frontier:
+        done.append((s, mk_result(ex, ok=UNIT)))
+    return done
+
+
+@contract(r' as Iterator>::find::<.*>$')
+def iter_find(ctx):
+    ex, st = ctx.ex, ctx.st
+    elems = _explicit_elems(ctx, ctx.args[0])
+    clo = ctx.args[1]
+    body = ex.db.closure_fn(clo.name) if isinstance(clo, Agg) else None
+    if elems is None or body is None:
+        return NotImplemented
+    ccell = st.alloc(clo)
+    outs = []
+    cur = st
+    for k, e in enumerate(elems):
+        ecell = cur.alloc(Ref(e.cell, e.path, False))
+        p = ex.call_sub_merge(cur, body, [Ref(ccell, ()), Ref(ecell, ())])
+        if p is None:
+            return NotImplemented
+        t, f = ex.branch(cur, p.t)
+        if t:
+            s2 = cur.fork() if f else cur
+            ex.assume(s2, p.t)
+            outs.append((s2, mk_option(ex, Ref(e.cell, e.path, False))))
+        if not f:
+            return outs
+        ex.assume(cur, z3.Not(p.t))
+    outs.append((cur, mk_option(ex, None)))
+    return outs
